@@ -126,6 +126,18 @@ def step (σ : Store) : Stmt → Store × Bool
           | some ty => (σ1.set y ty, true)
       | _, _ => (σ, false)
     else (σ, false)
+  | .update y x i a =>
+    if declared σ x ∧ declared σ y then
+      match setPath (get σ x) [i] (evalAtom σ a) with
+      | some t' => (σ.set y t', true)
+      | none => (σ, false)
+    else (σ, false)
+  | .callAppend y x a =>
+    if declared σ x ∧ declared σ y then
+      match get σ x with
+      | .list ts => (σ.set y (.list (ts ++ [evalAtom σ a])), true)
+      | _ => (σ, false)
+    else (σ, false)
 
 def run (σ : Store) : List Stmt → Store
   | [] => σ
